@@ -9,6 +9,7 @@
 From MW Require Import PyBase Nodes Builder Flatten BuilderProofs.
 From MW Require Import HeadingFrag HeadingFragProofs.
 From MW Require Import EntityFrag EntityFragProofs.
+From MW Require Import MixFrag MixFragProofs.
 
 Theorem C01_build_flatten_partial : forall c, wf_code c -> build (fl_code c) = Ok c.
 Proof. exact build_flatten_lemma. Qed.
@@ -74,4 +75,25 @@ Example C01_entity_fragment_example :
   [TText [97%N]; THTMLEntityStart; TText [97; 109; 112]%N; THTMLEntityEnd;
    THTMLEntityStart; THTMLEntityNumeric; THTMLEntityHex [120%N]; TText [52; 49]%N; THTMLEntityEnd;
    THTMLEntityStart; THTMLEntityNumeric; TText [48; 48; 54; 53]%N; THTMLEntityEnd; TText [38; 120; 59; 38; 35; 59]%N].
+Proof. vm_compute. reflexivity. Qed.
+
+(* ---- both fragments combined (coq/MixFrag.v): documents of plain text, HTML entities and section headings whose titles
+   may contain entities; tied to BOTH real tokenizers by correspondence (tools/headfrag.py run_mixed).  For EVERY string
+   and EVERY marker table, entity table, size limit and depth limit. *)
+Theorem C01_mixed_fragment_lossless : forall markers names msize md s, str_code (mfrag_nodes markers names msize md s) = s.
+Proof. exact mfrag_lossless. Qed.
+
+Theorem C01_mixed_fragment_end_to_end : forall markers names msize md s,
+  exists c, build (mfrag_tokens markers names msize md s) = Ok c /\ str_code c = s.
+Proof. exact mfrag_end_to_end. Qed.
+
+Print Assumptions C01_mixed_fragment_lossless.
+Print Assumptions C01_mixed_fragment_end_to_end.
+
+(* Non-vacuity: "==a&amp;==\n&#41;==x": a level-2 heading whose title holds an entity, then an entity and text *)
+Example C01_mixed_fragment_example :
+  mfrag_tokens [10; 35; 38; 59; 61]%N [[97; 109; 112]%N] 8 100
+    [61; 61; 97; 38; 97; 109; 112; 59; 61; 61; 10; 38; 35; 52; 49; 59; 61; 61; 120]%N =
+  [THeadingStart 2; TText [97%N]; THTMLEntityStart; TText [97; 109; 112]%N; THTMLEntityEnd; THeadingEnd; TText [10%N];
+   THTMLEntityStart; THTMLEntityNumeric; TText [52; 49]%N; THTMLEntityEnd; TText [61; 61; 120]%N].
 Proof. vm_compute. reflexivity. Qed.
